@@ -349,13 +349,22 @@ impl LdapResultExt {
             _ => unimplemented!(),
         };
         let mut tags = t.expect_constructed()?.into_iter();
-        let rc = match parse_uint(
-            tags.next()?
-                .match_class(TagClass::Universal)
-                .and_then(|t| t.match_id(Types::Enumerated as u64))
-                .and_then(|t| t.expect_primitive())?
-                .as_slice(),
-        ) {
+        let rc_octets = tags
+            .next()?
+            .match_class(TagClass::Universal)
+            .and_then(|t| t.match_id(Types::Enumerated as u64))
+            .and_then(|t| t.expect_primitive())?;
+        // The result code must be reported as sent or not at all: an empty value, or one which
+        // doesn't fit the u32 of LdapResult, would otherwise be truncated, possibly to zero.
+        let significant = match rc_octets.iter().position(|&b| b != 0) {
+            Some(pos) => &rc_octets[pos..],
+            None if rc_octets.is_empty() => return None,
+            None => &rc_octets[rc_octets.len() - 1..],
+        };
+        if significant.len() > 4 {
+            return None;
+        }
+        let rc = match parse_uint(significant) {
             Ok((_, rc)) => rc as u32,
             _ => return None,
         };
